@@ -33,8 +33,9 @@
     cosetProb (Z f)])` with the diagonal logicals `_logical_x / _logical_z` of the mode.
 
   What is NOT a theorem here: that the real float / mpf contraction equals the exact value (explored within 1e-11 by the
-  harness); that the diagonal logicals lie in the cosets of the code's `logical_x / logical_z` (the harness compares the
-  four model values with `cosetProb` on the REAL stabilizers and logicals, exactly, on every run for small groups).
+  harness).  NOT IN THIS FILE, but proved in Props/C10/PlanarRmpsLogicals.lean for all R, C ≥ 2 and both diagonals: the
+  diagonal logicals lie in the cosets of the code's `logical_x / logical_z` (`planarRmps_diag_logical_x`, `_z`), hence
+  the four values are `cosetProbs4` of the code's logicals (`planarRmps_samples_cosets`, `planarRmps_coset_values`).
 -/
 import QecVerif.Props.C10.Network
 import QecVerif.Lemmas.PlanarRmpsFactor
